@@ -4,8 +4,9 @@
 //! the rule "<model dir>/<one acceptable component>". This observes the
 //! operating-system boundary, not the implementation.
 //!
-//! The child (`extcheck c21-child <batch.json>`) forks one grandchild per
-//! case; the grandchild brackets the load with two marker opens of paths that
+//! The child (`extcheck c21-child <batch.json>`) runs its cases one after the
+//! other (an aborting load ends it; the parent continues the rest in a new
+//! traced child) and brackets each load with two marker opens of paths that
 //! do not exist (`/VERIF-C21-MARK/<i>`, `/VERIF-C21-END/<i>/<status>`), which
 //! show up in the log and delimit the section.
 use crate::case::{Case, Loader};
@@ -92,9 +93,10 @@ fn unescape(s: &[u8]) -> Vec<u8> {
 
 /// Parse an strace log. Returns the open events in order and the number of
 /// open-family lines that could not be parsed (unfinished/resumed/truncated).
-pub fn parse_log(text: &[u8]) -> (Vec<OpenEv>, u64) {
+pub fn parse_log_samples(text: &[u8]) -> (Vec<OpenEv>, u64, Vec<String>) {
     let mut evs = Vec::new();
     let mut unparsed = 0u64;
+    let mut samples: Vec<String> = Vec::new();
     for line in text.split(|b| *b == b'\n') {
         if line.is_empty() {
             continue;
@@ -117,17 +119,20 @@ pub fn parse_log(text: &[u8]) -> (Vec<OpenEv>, u64) {
         if !is_open {
             if rest.starts_with(b"<... open") || rest.starts_with(b"<... creat") {
                 unparsed += 1;
+            if samples.len() < 5 { let l = String::from_utf8_lossy(line); samples.push(format!("{}...{}", l.chars().take(200).collect::<String>(), l.chars().rev().take(120).collect::<Vec<_>>().into_iter().rev().collect::<String>())); }
             }
             continue;
         }
         let args = &rest[name_end + 1..];
         if args.ends_with(b"<unfinished ...>") {
             unparsed += 1;
+            if samples.len() < 5 { let l = String::from_utf8_lossy(line); samples.push(format!("{}...{}", l.chars().take(200).collect::<String>(), l.chars().rev().take(120).collect::<Vec<_>>().into_iter().rev().collect::<String>())); }
             continue;
         }
         // dirfd (openat*): text before the first '"'
         let Some(q0) = args.iter().position(|b| *b == b'"') else {
             unparsed += 1;
+            if samples.len() < 5 { let l = String::from_utf8_lossy(line); samples.push(format!("{}...{}", l.chars().take(200).collect::<String>(), l.chars().rev().take(120).collect::<Vec<_>>().into_iter().rev().collect::<String>())); }
             continue;
         };
         let dirfd = String::from_utf8_lossy(&args[..q0]).trim().trim_end_matches(',').to_string();
@@ -145,14 +150,22 @@ pub fn parse_log(text: &[u8]) -> (Vec<OpenEv>, u64) {
             }
             q1 += 1;
         }
-        if !ok || args[q1 + 1..].starts_with(b"...") {
+        if !ok {
+            unparsed += 1;
+            continue;
+        }
+        // strace cuts strings longer than PATH_MAX ("..."...): such a path cannot be opened
+        // successfully; a failing call is recorded with the truncated path.
+        let truncated = args[q1 + 1..].starts_with(b"...");
+        if truncated && !line.windows(6).any(|w| w == b") = -1") {
             unparsed += 1;
             continue;
         }
         let path = unescape(&args[q0 + 1..q1]);
-        let tail = &args[q1 + 1..];
+        let tail = &args[q1 + 1 + if truncated { 3 } else { 0 }..];
         let Some(eq) = tail.windows(3).rposition(|w| w == b" = ") else {
             unparsed += 1;
+            if samples.len() < 5 { let l = String::from_utf8_lossy(line); samples.push(format!("{}...{}", l.chars().take(200).collect::<String>(), l.chars().rev().take(120).collect::<Vec<_>>().into_iter().rev().collect::<String>())); }
             continue;
         };
         let flags = String::from_utf8_lossy(&tail[..eq]).trim().trim_start_matches(',').trim().trim_end_matches(')').to_string();
@@ -160,11 +173,12 @@ pub fn parse_log(text: &[u8]) -> (Vec<OpenEv>, u64) {
         let ret = ret_txt.split_whitespace().next().and_then(|t| t.parse::<i64>().ok());
         let Some(ret) = ret else {
             unparsed += 1;
+            if samples.len() < 5 { let l = String::from_utf8_lossy(line); samples.push(format!("{}...{}", l.chars().take(200).collect::<String>(), l.chars().rev().take(120).collect::<Vec<_>>().into_iter().rev().collect::<String>())); }
             continue;
         };
         evs.push(OpenEv { pid, path, dirfd, flags, ret });
     }
-    (evs, unparsed)
+    (evs, unparsed, samples)
 }
 
 /// One case's section of the log.
@@ -231,10 +245,23 @@ pub fn judge_open(ev: &OpenEv, cwd: &Path, mdir: &Path, model_file: Option<&str>
         return OpenVerdict::Escape(format!("open relative to descriptor {}", ev.dirfd));
     }
     let mut raw = ev.path.clone();
-    while raw.len() > 1 && raw.ends_with(b"/") {
-        raw.pop();
+    // Lexical clean-up of the tail: "x/" and "x/." name x itself.
+    loop {
+        if raw.len() > 1 && raw.ends_with(b"/") {
+            raw.pop();
+        } else if raw.ends_with(b"/.") && raw.len() > 2 {
+            raw.truncate(raw.len() - 2);
+        } else {
+            break;
+        }
     }
-    let full = if raw.starts_with(b"/") { bytes_path(&raw) } else { cwd.join(bytes_path(&raw)) };
+    let mut full = if raw.starts_with(b"/") { bytes_path(&raw) } else { cwd.join(bytes_path(&raw)) };
+    if full.as_os_str().as_bytes().ends_with(b"/..") {
+        // a trailing ".." can only be resolved by the file system
+        if let Ok(c) = full.canonicalize() {
+            full = c;
+        }
+    }
     let fb = full.as_os_str().as_bytes();
     let cut = fb.iter().rposition(|b| *b == b'/').unwrap_or(0);
     let (parent, name) = (&fb[..cut.max(1)], &fb[cut + 1..]);
@@ -285,9 +312,9 @@ pub fn model_file_name(i: usize) -> String {
 }
 
 pub struct BatchRun {
+    pub unparsed_samples: Vec<String>,
     pub sections: BTreeMap<usize, Section>,
     pub unparsed: u64,
-    pub strace_status: String,
     pub log_bytes: usize,
 }
 
@@ -309,19 +336,35 @@ pub fn run_batch(tree: &Tree, items: &[BatchItem], tag: &str, timeout_s: u64) ->
     }
     std::fs::write(&batch_path, json!({"root": tree.root.to_string_lossy(), "items": arr}).to_string()).map_err(|e| format!("write batch: {}", e))?;
     let exe = std::env::current_exe().map_err(|e| format!("current_exe: {}", e))?;
-    let mut cmd = std::process::Command::new("timeout");
-    cmd.arg("-s").arg("KILL").arg(timeout_s.to_string())
-        .arg("strace").arg("-f").arg("-qq").arg("-xx").arg("-s").arg("200000")
+    let mut cmd = std::process::Command::new("strace");
+    cmd.arg("-f").arg("-qq").arg("-xx").arg("-s").arg("200000")
         .arg("-e").arg("trace=open,openat,openat2,creat").arg("-e").arg("signal=none")
         .arg("-o").arg(&log_path)
         .arg(&exe).arg("c21-child").arg(&batch_path)
         .current_dir(&tree.root)
+        .stdin(std::process::Stdio::null())
         .stdout(std::process::Stdio::null())
-        .stderr(std::process::Stdio::piped());
-    let out = cmd.output().map_err(|e| format!("cannot run strace: {}", e))?;
-    let status = format!("{:?}", out.status.code());
-    let text = std::fs::read(&log_path).map_err(|e| format!("no strace log ({}); strace stderr: {}", e, String::from_utf8_lossy(&out.stderr).chars().take(300).collect::<String>()))?;
-    let (evs, unparsed) = parse_log(&text);
+        .stderr(std::process::Stdio::null());
+    let mut child = cmd.spawn().map_err(|e| format!("cannot run strace: {}", e))?;
+    let t0 = std::time::Instant::now();
+    let mut timed_out = false;
+    let status = loop {
+        match child.try_wait() {
+            Ok(Some(st)) => break format!("{:?}", st),
+            Ok(None) => {
+                if t0.elapsed().as_secs() > timeout_s {
+                    let _ = child.kill();
+                    let _ = child.wait();
+                    timed_out = true;
+                    break "watchdog".to_string();
+                }
+                std::thread::sleep(std::time::Duration::from_millis(3));
+            }
+            Err(e) => break format!("wait error {}", e),
+        }
+    };
+    let text = std::fs::read(&log_path).map_err(|e| format!("no strace log ({}), strace status {}", e, status))?;
+    let (evs, unparsed, unparsed_samples) = parse_log_samples(&text);
     let secs = sections(&evs);
     for (i, it) in items.iter().enumerate() {
         if let BatchItem::Load { loader, .. } = it {
@@ -332,10 +375,10 @@ pub fn run_batch(tree: &Tree, items: &[BatchItem], tag: &str, timeout_s: u64) ->
     }
     let _ = std::fs::remove_file(&batch_path);
     let _ = std::fs::remove_file(&log_path);
-    if out.status.code() == Some(137) || out.status.code().is_none() {
-        return Err(format!("traced child timed out or was killed (status {})", status));
+    if timed_out {
+        return Err(format!("traced child exceeded {} s", timeout_s));
     }
-    Ok(BatchRun { sections: secs, unparsed, strace_status: status, log_bytes: text.len() })
+    Ok(BatchRun { unparsed_samples, sections: secs, unparsed, log_bytes: text.len() })
 }
 
 fn marker(path: &str) {
@@ -366,27 +409,25 @@ pub fn child_main(batch_file: &str) -> i32 {
     let tree = Tree::spec(&root);
     let empty = Vec::new();
     for (i, it) in j["items"].as_array().unwrap_or(&empty).iter().enumerate() {
-        let _ = vcommon::guard::in_child(|| {
-            unsafe { libc::alarm(60) };
-            if let Some(p) = it.get("self_open").and_then(|p| p.as_str()) {
-                marker(&format!("{}{}", MARK, i));
-                let r = std::fs::File::open(p);
-                marker(&format!("{}{}/self-{}", ENDMARK, i, if r.is_ok() { "opened" } else { "failed" }));
-                return 0;
-            }
-            let case = Case::from_json(&it["case"]);
-            let loader = Loader::parse(it["loader"].as_str().unwrap_or("file")).unwrap_or(Loader::File);
-            let prepared = if loader == Loader::Mem { Some(exec::prepare_mem(&tree, &case)) } else { None };
+        unsafe { libc::alarm(60) };
+        if let Some(p) = it.get("self_open").and_then(|p| p.as_str()) {
             marker(&format!("{}{}", MARK, i));
-            let r = exec::load_only(&tree, &case, loader, &model_file_name(i), prepared);
-            let st = match &r {
-                Ok(Ok(_)) => "ok",
-                Ok(Err(_)) => "err",
-                Err(_) => "panic",
-            };
-            marker(&format!("{}{}/{}", ENDMARK, i, st));
-            0
-        });
+            let r = std::fs::File::open(p);
+            marker(&format!("{}{}/self-{}", ENDMARK, i, if r.is_ok() { "opened" } else { "failed" }));
+            continue;
+        }
+        let case = Case::from_json(&it["case"]);
+        let loader = Loader::parse(it["loader"].as_str().unwrap_or("file")).unwrap_or(Loader::File);
+        let prepared = if loader == Loader::Mem { Some(exec::prepare_mem(&tree, &case)) } else { None };
+        marker(&format!("{}{}", MARK, i));
+        let r = exec::load_only(&tree, &case, loader, &model_file_name(i), prepared);
+        let st = match &r {
+            Ok(Ok(_)) => "ok",
+            Ok(Err(_)) => "err",
+            Err(_) => "panic",
+        };
+        drop(r);
+        marker(&format!("{}{}/{}", ENDMARK, i, st));
     }
     0
 }
